@@ -32,8 +32,9 @@ def split(cases, k):
     return [cases[i::k] for i in range(k)], k
 
 
-def run_cases(ctx, libs, cases, hashseeds=(None,), shards=8, module="xv.impl.ident_worker"):
-    """returns {hashseed: [record per case]} (records in the order of `cases`)"""
+def run_cases(ctx, libs, cases, hashseeds=(None,), shards=8, module="xv.impl.ident_worker", real_flags=False):
+    """returns {hashseed: [record per case]} (records in the order of `cases`).  `real_flags`: describe every argument by the flags of the real
+    `Argument` object (for drivers that do not derive the flags from declarations: Drive/C20.lean)"""
     tmp = ctx.tmpdir()
     parts, k = split(list(enumerate(cases)), shards)
     jobs = []
@@ -41,6 +42,8 @@ def run_cases(ctx, libs, cases, hashseeds=(None,), shards=8, module="xv.impl.ide
         for hs in hashseeds:
             for pi, part in enumerate(parts):
                 payload = {"libs": libs, "cases": [c for _, c in part]}
+                if real_flags:
+                    payload["real_flags"] = True
                 jobs.append((hs, pi, ex.submit(run_worker, payload, tmp, f"{hs}-{pi}-{len(jobs)}", hs, module)))
         res = {hs: [None] * len(cases) for hs in hashseeds}
         for hs, pi, fut in jobs:
